@@ -185,10 +185,10 @@ Section SBGP.
   Add Ring Aring : Rth.
 
   Notation sum_pairs := (sum_pairs zero add).
-  Notation cumsum_from := (cumsum_from add).
-  Notation adjdiff := (adjdiff sub).
-  Notation sbg_sorted := (sbg_sorted zero add sub).
-  Notation sbg_np := (sbg_np zero add sub).
+  Notation seg := (seg zero add).
+  Notation segsum := (segsum zero add).
+  Notation sbg_sorted := (sbg_sorted zero add).
+  Notation sbg_np := (sbg_np zero add).
   Notation sbg_bucket := (sbg_bucket zero add).
   Notation sbg_spec := (sbg_spec zero add).
 
@@ -203,22 +203,31 @@ Section SBGP.
     | _, _ => []
     end.
 
-  Lemma adjdiff_gsum ks : forall vs p a, length vs = length ks ->
-    adjdiff p (select (gmask ks) (cumsum_from a vs)) = gsum (sub a p) ks vs.
+  (* the segment sums over the first-of-group mask are the one-pass group sums *)
+  Lemma seg_gsum kr : forall k v vr acc, length vr = length kr ->
+    gsum acc (k :: kr) (v :: vr) = add (add acc v) (fst (seg (fmask_from k kr) vr)) :: snd (seg (fmask_from k kr) vr).
   Proof.
-    induction ks as [|k kr IH]; intros vs p a Hl; destruct vs as [|v vr]; try discriminate; [reflexivity|].
-    destruct kr as [|k' kr'].
+    induction kr as [|k' kr' IH]; intros k v vr acc Hl.
     - destruct vr; [|discriminate]. simpl. f_equal. ring.
-    - change (gmask (k :: k' :: kr')) with (negb (k' =? k) :: gmask (k' :: kr')).
-      change (cumsum_from a (v :: vr)) with (add a v :: cumsum_from (add a v) vr).
-      change (gsum (sub a p) (k :: k' :: kr') (v :: vr)) with
-        (if k' =? k then gsum (add (sub a p) v) (k' :: kr') vr else add (sub a p) v :: gsum zero (k' :: kr') vr).
-      assert (Hl' : length vr = length (k' :: kr')) by (simpl in *; lia).
-      destruct (Z.eqb_spec k' k); cbn [negb select Model.adjdiff].
-      + rewrite (IH vr p (add a v) Hl').
-        replace (sub (add a v) p) with (add (sub a p) v) by ring. reflexivity.
-      + f_equal; [ring|]. rewrite (IH vr (add a v) (add a v) Hl').
-        replace (sub (add a v) (add a v)) with zero by ring. reflexivity.
+    - destruct vr as [|v' vr']; [discriminate|]. simpl in Hl.
+      change (gsum acc (k :: k' :: kr') (v :: v' :: vr')) with
+        (if k' =? k then gsum (add acc v) (k' :: kr') (v' :: vr') else add acc v :: gsum zero (k' :: kr') (v' :: vr')).
+      change (fmask_from k (k' :: kr')) with (negb (k' =? k) :: fmask_from k' kr').
+      change (Model.seg zero add (negb (k' =? k) :: fmask_from k' kr') (v' :: vr')) with
+        (let r := seg (fmask_from k' kr') vr' in
+         if negb (k' =? k) then (zero, add v' (fst r) :: snd r) else (add v' (fst r), snd r)).
+      cbv zeta. destruct (Z.eqb_spec k' k); cbn [negb fst snd].
+      + rewrite IH by lia. f_equal. ring.
+      + rewrite IH by lia. f_equal; [ring|]. f_equal. ring.
+  Qed.
+
+  Lemma segsum_gsum ks vs : length vs = length ks -> segsum (fmask ks) vs = gsum zero ks vs.
+  Proof.
+    intros Hl. destruct ks as [|k kr]; destruct vs as [|v vr]; try discriminate; [reflexivity|].
+    simpl in Hl. rewrite seg_gsum by lia. unfold Model.segsum, fmask.
+    change (Model.seg zero add (true :: fmask_from k kr) (v :: vr)) with
+      (zero, add v (fst (seg (fmask_from k kr) vr)) :: snd (seg (fmask_from k kr) vr)).
+    cbn [snd]. f_equal. ring.
   Qed.
 
   Lemma sum_pairs_cons k j v (l : list (Z * A)) :
@@ -326,9 +335,6 @@ Section SBGP.
     - destruct H as [<-|H]; simpl; auto.
   Qed.
 
-  Lemma adjdiff0_adjdiff xs : adjdiff0 sub xs = adjdiff zero xs.
-  Proof. destruct xs; simpl; auto. f_equal. ring. Qed.
-
   (* _sum_by_group_sorted on sorted keys = specification *)
   Theorem sbg_sorted_spec ks vs : Sorted Z.le ks -> length vs = length ks ->
     sbg_sorted ks vs = sbg_spec ks vs.
@@ -340,8 +346,8 @@ Section SBGP.
       - apply distinct_sorted_sorted.
       - intros x. rewrite distinct_sorted_in. split; [apply select_in|apply select_gmask_in]. }
     f_equal; auto.
-    rewrite adjdiff0_adjdiff, adjdiff_gsum by auto.
-    destruct (gsum_spec ks vs (sub zero zero) Hs Hl) as [E _]. rewrite E, <- Hk.
+    rewrite segsum_gsum by auto.
+    destruct (gsum_spec ks vs zero Hs Hl) as [E _]. rewrite E, <- Hk.
     destruct (select (gmask ks) ks); simpl; auto. f_equal. ring.
   Qed.
 
@@ -511,7 +517,7 @@ Section SBGAll.
   Theorem sbg_all_paths_spec (use_numba numba_installed : bool) order ks vs :
     Permutation order (seq 0 (length ks)) -> Sorted Z.le (permute 0 order ks) ->
     (forall k, In k ks -> 0 <= k) -> length vs = length ks ->
-    sbg zero add sub use_numba numba_installed order ks vs = sbg_spec zero add ks vs.
+    sbg zero add use_numba numba_installed order ks vs = sbg_spec zero add ks vs.
   Proof.
     intros Hp Hs Hpos Hl. unfold sbg.
     destruct (use_numba && numba_installed).
@@ -525,6 +531,6 @@ Section SBGAll.
 
   Corollary sbg_model_order_spec (use_numba numba_installed : bool) ks vs :
     (forall k, In k ks -> 0 <= k) -> length vs = length ks ->
-    sbg zero add sub use_numba numba_installed (argsort ks) ks vs = sbg_spec zero add ks vs.
+    sbg zero add use_numba numba_installed (argsort ks) ks vs = sbg_spec zero add ks vs.
   Proof. intros. apply sbg_all_paths_spec; auto using argsort_perm, argsort_sorted. Qed.
 End SBGAll.
